@@ -344,12 +344,17 @@ pub fn dfs_all(store: &LpgStore) -> Vec<NodeId> {
                 TraversalEvent::Finish(n) => {
                     finished.push(n);
                 }
+                // Nodes finished from an earlier root are not traversed again
+                TraversalEvent::TreeEdge { target, .. } if visited.contains(&target) => {
+                    return Control::Prune;
+                }
                 _ => {}
             }
             Control::Continue
         });
     }
 
+    finished.reverse();
     finished
 }
 
